@@ -52,7 +52,8 @@ BROKEN = '[Broken\nmatch: contains(\n'
 # the same rule texts with and without an explicit priority (most_specific mode): nothing about a rule may be remembered under its expression text or its name
 RULES_D = '[Costco Gas]\nmatch: contains("COSTCO GAS")\ncategory: Transport\nsubcategory: Fuel\n\n[Costco]\nmatch: contains("COSTCO")\ncategory: Food\nsubcategory: Groceries\n'
 RULES_E = RULES_D + 'priority: 90\n'
-FILES = {'a.rules': RULES_A, 'b.rules': RULES_B, 'c.csv': CSV_C, 'broken.rules': BROKEN, 'd.rules': RULES_D, 'e.rules': RULES_E}
+RULES_LITERAL = '[Lit]\nmatch: contains("NETFLIX") or ...\ncategory: Lit\nsubcategory: L\n'
+FILES = {'literal.rules': RULES_LITERAL, 'a.rules': RULES_A, 'b.rules': RULES_B, 'c.csv': CSV_C, 'broken.rules': BROKEN, 'd.rules': RULES_D, 'e.rules': RULES_E}
 for n, t in FILES.items():
     open(os.path.join(TMP, n), 'w').write(t)
 
@@ -86,6 +87,10 @@ DIRECTED = [
     [('load_ms', 'd.rules'), ('classify', 4), ('load_ms', 'e.rules'), ('classify', 4)],
     [('load_ms', 'e.rules'), ('classify', 4), ('load_ms', 'd.rules'), ('classify', 4)],
     [('load_ms', 'd.rules'), ('classify', 4), ('rewrite', 'd.rules', 'e.rules'), ('load_ms', 'd.rules'), ('classify', 4)],
+    # an expression that is refused is refused every time it is read (a rules file is loaded several times in one run of `tally up`)
+    [('eval', 'amount > 1 or ...', 0), ('eval', 'amount > 1 or ...', 0)],
+    [('eval', 'description == b"x" or amount > 1', 0), ('eval', 'description == b"x" or amount > 1', 0), ('eval', 'amount + 2j', 0), ('eval', 'amount + 2j', 0)],
+    [('load', 'literal.rules'), ('classify', 0), ('load', 'literal.rules'), ('classify', 0)],
 ]
 
 DRIVER = r'''
@@ -200,6 +205,28 @@ def check_inputs_unchanged():
     after = repr([(r.name, r.match_expr, sorted(r.tags), r.let_bindings, r.fields) for r in eng.rules])
     if before != after:
         O.fail('C07.match_mutates_rules', {}, before, after)
+    # a field: directive may evaluate to a supplemental row (or a list of rows): what is exported for the transaction must not be the caller's
+    # row rewritten in place - the next transaction is classified against the same rows
+    path = os.path.join(TMP, 'f.rules')
+    open(path, 'w').write('[Ord]\nmatch: contains("ORD") and any(r.date > "2025-01-01" for r in orders)\ncategory: Shop\nsubcategory: Online\n'
+                          'field: order = next(r for r in orders if r.id == extract("ORD(\\\\d+)"))\nfield: all_orders = [r for r in orders]\n')
+    rows2 = {'orders': [{'id': '77', 'item': 'x', 'date': date(2025, 2, 3)}, {'id': '78', 'item': 'y', 'date': date(2025, 2, 4)}]}
+    snap = copy.deepcopy(rows2)
+    rules = mu.get_all_rules(path)
+    first = None
+    for k in range(2):
+        O.case(('frame', 'field_is_a_row', k))
+        r = mu.normalize_merchant('ORD77 SHOP', rules, amount=500.0, txn_date=date(2025, 2, 5), field=None, data_source='S', transforms=[], data_sources=rows2)
+        if r[1] != 'Shop' or not (r[3] or {}).get('extra_fields'):
+            raise RuntimeError('oracle self-check: the rule with the row-valued field: did not apply (%r)' % (r,))     # a vacuous case must not pass silently
+        if rows2 != snap:
+            O.fail('C07.classification_rewrites_supplemental_rows', {'call': k}, repr(snap), repr(rows2), 'normalize_merchant with a field: that evaluates to a supplemental row')
+            break
+        if first is None:
+            first = r[:3]
+        elif r[:3] != first:
+            O.fail('C07.history_dependent_classification', {'history': 'the same transaction classified twice against the same rows'}, first, r[:3])
+    mu.clear_engine_cache() if hasattr(mu, 'clear_engine_cache') else None
 
 
 def main():
